@@ -106,6 +106,17 @@ static int gen_json_printer_enum(fb_output_t *out, fb_compound_type_t *ct)
                     "        return;\n"
                     "    }\n",
                    constwrap, mask, tp);
+        } else {
+            /*
+             * Every bit of the base type is a flag: zero still has no
+             * symbol and must not be printed as an empty symbol list.
+             */
+            fprintf(out->fp,
+                    "    if (x == 0) {\n"
+                    "        flatcc_json_printer_%s(ctx, v);\n"
+                    "        return;\n"
+                    "    }\n",
+                   tp);
         }
         /*
          * Test if multiple bits set. We may have a configuration option
